@@ -224,7 +224,8 @@ def run_format_traces(chk, scen_jobs):
     rej = sum(1 for j in range(len(recs), len(allr)) if j not in acc)
     chk.notes['format_traces'] = {'records': len(recs), 'corrupted_records_rejected': f'{rej}/{len(bad)}'}
     if rej != len(bad):
-        chk.machinery(f'Trace_Formats accepted {len(bad) - rej} corrupted record(s): the trace specification does not bind')
+        which = [f"{allr[j]['fmt']}: {allr[j]['what'][:120]}" for j in range(len(recs), len(allr)) if j in acc]
+        chk.machinery(f'Trace_Formats accepted {len(bad) - rej} corrupted record(s): the trace specification does not bind: {which}')
 
 
 def run(chk):
